@@ -25,7 +25,7 @@
 EXTENDS Word, TLC, Json, IOUtils, FiniteSets
 
 EUNSPEC == 999      \* the model does not say what happens (such calls are not compared)
-ESUCCESS == 0  EBADF == 8  EEXIST == 20  EINVAL == 28  EISDIR == 31  ENOENT == 44  ENOTDIR == 54  ENOTEMPTY == 55
+ESUCCESS == 0  EBADF == 8  EEXIST == 20  EINVAL == 28  EISDIR == 31  ENOENT == 44  ENOTDIR == 54  ENOTEMPTY == 55  ELOOP == 32
 
 W8(n) == OfNat(n, 8)
 Z8 == Zero(8)
@@ -78,7 +78,10 @@ Scatter(data, lens) ==
 ----------------------------------------------------------------------------
 \* the error of a lookup whose last component is missing: the host says ENOTDIR when the parent exists but is a regular
 \* file, follows a parent that is a symbolic link (not modelled), and says ENOENT otherwise
+\* (a link whose target is its own name can never be resolved: ELOOP)
+SelfLoop(s, q) == Exists(s, q) /\ s.fs[q].kind = "link" /\ s.fs[q].target = q
 Missing(s, pp) == IF Exists(s, pp) /\ s.fs[pp].kind = "file" THEN ENOTDIR
+                  ELSE IF SelfLoop(s, pp) THEN ELOOP
                   ELSE IF Exists(s, pp) /\ s.fs[pp].kind = "link" THEN EUNSPEC ELSE ENOENT
 (* path_open: oflags bits creat 1, directory 2, excl 4, trunc 8; c.rd / c.wr from the rights; c.app from fdflags *)
 PathOpen(s, c) ==
@@ -97,11 +100,14 @@ PathOpen(s, c) ==
         entry(kind) == [st |-> "open", kind |-> kind, path |-> p, pos |-> Z8, app |-> c.app, rd |-> c.rd \/ ~c.wr, wr |-> c.wr]
     IN  \* a trailing slash demands a directory: on a regular file the host refuses (ENOTDIR; EISDIR when asked to create),
         \* on a missing name it cannot create a file; symbolic links are followed by the host (not modelled)
-        IF c.slash /\ Exists(s, p) /\ s.fs[p].kind = "link" THEN Res(s, EUNSPEC, NoOut)
+        \* O_CREAT together with O_DIRECTORY is refused outright by this host (Linux >= 6.4), whatever the name denotes
+        IF creat /\ dirf THEN Res(s, EINVAL, NoOut)
+        ELSE IF c.slash /\ Exists(s, p) /\ s.fs[p].kind = "link" THEN Res(s, EUNSPEC, NoOut)
         ELSE IF c.slash /\ Exists(s, p) /\ s.fs[p].kind = "file" THEN Res(s, IF creat THEN EISDIR ELSE ENOTDIR, NoOut)
         ELSE IF c.slash /\ ~Exists(s, p) /\ creat /\ IsDir(s, Join(IF c.abs THEN "" ELSE d.path, c.parent)) THEN Res(s, EISDIR, NoOut)
         ELSE IF Exists(s, p) THEN
             IF creat /\ excl THEN Res(s, EEXIST, NoOut)
+            ELSE IF SelfLoop(s, p) THEN Res(s, ELOOP, NoOut)
             ELSE IF s.fs[p].kind = "link" THEN Res(s, EUNSPEC, NoOut)          \* symbolic links are followed by the host
             ELSE IF s.fs[p].kind = "dir" THEN
                 (IF c.wr \/ creat \/ trunc THEN Res(s, EISDIR, NoOut)
